@@ -38,7 +38,8 @@ pub trait MapValidVec<T: IsNone>: Vec1View<T> {
                     )
                     .to_trust(len),
             ),
-            n if n < 0 => Box::new(
+            // n <= 0: a zero lag is x[i] - x[i], which keeps nulls null
+            _ => Box::new(
                 self.titer()
                     .skip(n_abs)
                     .zip(self.titer())
@@ -46,7 +47,6 @@ pub trait MapValidVec<T: IsNone>: Vec1View<T> {
                     .chain(std::iter::repeat_n(value, n_abs))
                     .to_trust(len),
             ),
-            _ => Box::new(std::iter::repeat_n(T::zero(), len).to_trust(len)),
         }
     }
 
@@ -83,7 +83,8 @@ pub trait MapValidVec<T: IsNone>: Vec1View<T> {
                     })
                     .to_trust(len),
             ),
-            n if n < 0 => Box::new(
+            // n <= 0: a zero lag is x[i] / x[i] - 1, null at nulls and at zero bases
+            _ => Box::new(
                 self.titer()
                     .skip(n_abs)
                     .zip(self.titer())
@@ -98,7 +99,6 @@ pub trait MapValidVec<T: IsNone>: Vec1View<T> {
                     .chain(std::iter::repeat_n(f64::NAN, n_abs))
                     .to_trust(len),
             ),
-            _ => Box::new(std::iter::repeat_n(0., len).to_trust(len)),
         }
     }
 
